@@ -76,6 +76,28 @@ package protocol
 //@   ensures  [cap]     $r1 == nil ==> L(r, old(consumed(r))) <= 1<<20
 //@   alloc    [bounded] 32*L(r, old(consumed(r))) + 65536
 //@   deadcode 1
+//@   onlyfor  [C06] post:dec-
+//@   focus    [C06] post:dec-
+// value level (C06): what the decoder returns for every fixed-layout frame, in
+// the same be32/be16 terms as Write's contract.
+//@   ensures  [dec-keepalive] $r1 == nil && L(r, old(consumed(r))) == 0 ==> typeis_[KeepAlive]($r0)
+//@   ensures  [dec-choke]     $r1 == nil && L(r, old(consumed(r))) > 0 && streamAt(r, old(consumed(r)) + 4) == 0 ==> typeis_[Choke]($r0) && L(r, old(consumed(r))) == 1
+//@   ensures  [dec-unchoke]   $r1 == nil && L(r, old(consumed(r))) > 0 && streamAt(r, old(consumed(r)) + 4) == 1 ==> typeis_[Unchoke]($r0) && L(r, old(consumed(r))) == 1
+//@   ensures  [dec-interested] $r1 == nil && L(r, old(consumed(r))) > 0 && streamAt(r, old(consumed(r)) + 4) == 2 ==> typeis_[Interested]($r0) && L(r, old(consumed(r))) == 1
+//@   ensures  [dec-notinterested] $r1 == nil && L(r, old(consumed(r))) > 0 && streamAt(r, old(consumed(r)) + 4) == 3 ==> typeis_[NotInterested]($r0) && L(r, old(consumed(r))) == 1
+//@   ensures  [dec-haveall]   $r1 == nil && L(r, old(consumed(r))) > 0 && streamAt(r, old(consumed(r)) + 4) == 14 ==> typeis_[HaveAll]($r0) && L(r, old(consumed(r))) == 1
+//@   ensures  [dec-havenone]  $r1 == nil && L(r, old(consumed(r))) > 0 && streamAt(r, old(consumed(r)) + 4) == 15 ==> typeis_[HaveNone]($r0) && L(r, old(consumed(r))) == 1
+//@   ensures  [dec-have]      $r1 == nil && L(r, old(consumed(r))) > 0 && streamAt(r, old(consumed(r)) + 4) == 4 ==> typeis_[Have]($r0) && L(r, old(consumed(r))) == 5 && as_[Have]($r0).Index == be32(r, old(consumed(r)) + 5)
+//@   ensures  [dec-suggest]   $r1 == nil && L(r, old(consumed(r))) > 0 && streamAt(r, old(consumed(r)) + 4) == 13 ==> typeis_[SuggestPiece]($r0) && L(r, old(consumed(r))) == 5 && as_[SuggestPiece]($r0).Index == be32(r, old(consumed(r)) + 5)
+//@   ensures  [dec-allowedfast] $r1 == nil && L(r, old(consumed(r))) > 0 && streamAt(r, old(consumed(r)) + 4) == 17 ==> typeis_[AllowedFast]($r0) && L(r, old(consumed(r))) == 5 && as_[AllowedFast]($r0).Index == be32(r, old(consumed(r)) + 5)
+//@   ensures  [dec-request]   $r1 == nil && L(r, old(consumed(r))) > 0 && streamAt(r, old(consumed(r)) + 4) == 6 ==> typeis_[Request]($r0) && L(r, old(consumed(r))) == 13 && as_[Request]($r0).Index == be32(r, old(consumed(r)) + 5) && as_[Request]($r0).Begin == be32(r, old(consumed(r)) + 9) && as_[Request]($r0).Length == be32(r, old(consumed(r)) + 13)
+//@   ensures  [dec-cancel]    $r1 == nil && L(r, old(consumed(r))) > 0 && streamAt(r, old(consumed(r)) + 4) == 8 ==> typeis_[Cancel]($r0) && L(r, old(consumed(r))) == 13 && as_[Cancel]($r0).Index == be32(r, old(consumed(r)) + 5) && as_[Cancel]($r0).Begin == be32(r, old(consumed(r)) + 9) && as_[Cancel]($r0).Length == be32(r, old(consumed(r)) + 13)
+//@   ensures  [dec-reject]    $r1 == nil && L(r, old(consumed(r))) > 0 && streamAt(r, old(consumed(r)) + 4) == 16 ==> typeis_[RejectRequest]($r0) && L(r, old(consumed(r))) == 13 && as_[RejectRequest]($r0).Index == be32(r, old(consumed(r)) + 5) && as_[RejectRequest]($r0).Begin == be32(r, old(consumed(r)) + 9) && as_[RejectRequest]($r0).Length == be32(r, old(consumed(r)) + 13)
+//@   ensures  [dec-port]      $r1 == nil && L(r, old(consumed(r))) > 0 && streamAt(r, old(consumed(r)) + 4) == 9 ==> typeis_[Port]($r0) && L(r, old(consumed(r))) == 3 && as_[Port]($r0).Port == be16(r, old(consumed(r)) + 5)
+//@   ensures  [dec-bitfield]  $r1 == nil && L(r, old(consumed(r))) > 0 && streamAt(r, old(consumed(r)) + 4) == 5 ==> typeis_[Bitfield]($r0) && len(as_[Bitfield]($r0).Bitfield) == L(r, old(consumed(r))) - 1
+//@   ensures  [dec-bitfieldbytes] $r1 == nil && L(r, old(consumed(r))) > 0 && streamAt(r, old(consumed(r)) + 4) == 5 ==> forall k int :: 0 <= k && k < L(r, old(consumed(r))) - 1 ==> as_[Bitfield]($r0).Bitfield[k] == streamAt(r, old(consumed(r)) + 5 + k)
+//@   ensures  [dec-piece]     $r1 == nil && L(r, old(consumed(r))) > 0 && streamAt(r, old(consumed(r)) + 4) == 7 ==> typeis_[Piece]($r0) && len(as_[Piece]($r0).Data) == L(r, old(consumed(r))) - 9 && as_[Piece]($r0).Index == be32(r, old(consumed(r)) + 5) && as_[Piece]($r0).Begin == be32(r, old(consumed(r)) + 9)
+//@   ensures  [dec-piecebytes] $r1 == nil && L(r, old(consumed(r))) > 0 && streamAt(r, old(consumed(r)) + 4) == 7 ==> forall k int :: 0 <= k && k < L(r, old(consumed(r))) - 9 ==> as_[Piece]($r0).Data[k] == streamAt(r, old(consumed(r)) + 13 + k)
 //@   replay   protocol_read
 //@   witness  [b:48] streamAt(r, consumed(r) + $k)
 //@   props    C04 C05 C06
@@ -157,3 +179,151 @@ package protocol
 //@   loop 2
 //@     invariant len(hsh) == 20
 //@   props    C07 C08
+
+// ---- emitters (C06): the bytes handed to the bufio.Writer, position by
+// position, against the BEP 3 / BEP 6 layout <len:4><id:1><payload>.
+// consumed(w)/streamAt(w,k) describe the OUTPUT stream of w (see streams.spec).
+//@ func sendMessage0
+//@   requires w != nil
+//@   modifies consumed(w)
+//@   ensures  [len]   $r0 == nil ==> consumed(w) == old(consumed(w)) + 5
+//@   ensures  [bytes] $r0 == nil ==> be32(w, old(consumed(w))) == 1 && streamAt(w, old(consumed(w)) + 4) == tpe
+//@   props    C06
+
+//@ func sendMessageShort
+//@   requires w != nil
+//@   instconsts 16
+//@   opaquefn word32 word16
+//@   modifies consumed(w)
+//@   ensures  [len]   $r0 == nil ==> consumed(w) == old(consumed(w)) + 7
+//@   ensures  [bytes] $r0 == nil ==> be32(w, old(consumed(w))) == 3 && streamAt(w, old(consumed(w)) + 4) == tpe && be16(w, old(consumed(w)) + 5) == v
+//@   props    C06
+
+//@ func sendMessage1
+//@   requires w != nil
+//@   instconsts 16
+//@   opaquefn word32 word16
+//@   modifies consumed(w)
+//@   ensures  [len]   $r0 == nil ==> consumed(w) == old(consumed(w)) + 9
+//@   ensures  [bytes] $r0 == nil ==> be32(w, old(consumed(w))) == 5 && streamAt(w, old(consumed(w)) + 4) == tpe && be32(w, old(consumed(w)) + 5) == v
+//@   props    C06
+
+//@ func sendMessage3
+//@   requires w != nil
+//@   instconsts 16
+//@   opaquefn word32 word16
+//@   modifies consumed(w)
+//@   ensures  [len]   $r0 == nil ==> consumed(w) == old(consumed(w)) + 17
+//@   ensures  [bytes] $r0 == nil ==> be32(w, old(consumed(w))) == 13 && streamAt(w, old(consumed(w)) + 4) == tpe && be32(w, old(consumed(w)) + 5) == v1 && be32(w, old(consumed(w)) + 9) == v2 && be32(w, old(consumed(w)) + 13) == v3
+//@   props    C06
+
+// sendMessage: <len = 1+|d1|+|d2|+|d3|><id><d1><d2><d3>.
+//@ func sendMessage
+//@   requires w != nil && len(data1) + len(data2) + len(data3) < 1<<31
+//@   instconsts 8
+//@   opaquefn word32 word16
+//@   modifies consumed(w)
+//@   ensures  [len]   $r0 == nil ==> consumed(w) == old(consumed(w)) + 5 + len(data1) + len(data2) + len(data3)
+//@   ensures  [head]  $r0 == nil ==> int(be32(w, old(consumed(w)))) == 1 + len(data1) + len(data2) + len(data3) && streamAt(w, old(consumed(w)) + 4) == tpe
+//@   ensures  [d1]    $r0 == nil ==> forall k int :: 0 <= k && k < len(data1) ==> streamAt(w, old(consumed(w)) + 5 + k) == data1[k]
+//@   ensures  [d2]    $r0 == nil ==> forall k int :: 0 <= k && k < len(data2) ==> streamAt(w, old(consumed(w)) + 5 + len(data1) + k) == data2[k]
+//@   ensures  [d3]    $r0 == nil ==> forall k int :: 0 <= k && k < len(data3) ==> streamAt(w, old(consumed(w)) + 5 + len(data1) + len(data2) + k) == data3[k]
+//@   props    C06
+
+//@ func sendExtended
+//@   requires w != nil && len(data1) + len(data2) < 1<<30
+//@   instconsts 8
+//@   opaquefn word32 word16
+//@   modifies consumed(w)
+//@   ensures  [len]   $r0 == nil ==> consumed(w) == old(consumed(w)) + 6 + len(data1) + len(data2)
+//@   ensures  [head]  $r0 == nil ==> int(be32(w, old(consumed(w)))) == 2 + len(data1) + len(data2) && streamAt(w, old(consumed(w)) + 4) == 20 && streamAt(w, old(consumed(w)) + 5) == subtype
+//@   ensures  [d1]    $r0 == nil ==> forall k int :: 0 <= k && k < len(data1) ==> streamAt(w, old(consumed(w)) + 6 + k) == data1[k]
+//@   ensures  [d2]    $r0 == nil ==> forall k int :: 0 <= k && k < len(data2) ==> streamAt(w, old(consumed(w)) + 6 + len(data1) + k) == data2[k]
+//@   props    C06
+
+// Write: for every message with a fixed layout, the bytes handed to the writer
+// are exactly the BEP 3 / BEP 6 / BEP 10 encoding of the message's fields
+// (big-endian words stated with the same be32/be16 the decoder's contract uses).
+// Bencoded payloads (Extended0, ExtendedMetadata, ExtendedPex) are NOT covered.
+//@ func Write
+//@   requires w != nil
+//@   requires typeis_[Piece](m) ==> len(as_[Piece](m).Data) < 1<<30
+//@   requires typeis_[Bitfield](m) ==> len(as_[Bitfield](m).Bitfield) < 1<<30
+//@   instconsts 16
+//@   opaquefn word32 word16
+//@   splitreturn
+//@   focus    post:, frame:ghost
+//@   modifies consumed(w)
+//@   ensures  [keepalive] $r0 == nil && typeis_[KeepAlive](m) ==> consumed(w) == old(consumed(w)) + 4 && streamAt(w, old(consumed(w))) == 0 && streamAt(w, old(consumed(w)) + 1) == 0 && streamAt(w, old(consumed(w)) + 2) == 0 && streamAt(w, old(consumed(w)) + 3) == 0
+//@   ensures  [choke]     $r0 == nil && typeis_[Choke](m) ==> consumed(w) == old(consumed(w)) + 5 && be32(w, old(consumed(w))) == 1 && streamAt(w, old(consumed(w)) + 4) == 0
+//@   ensures  [unchoke]   $r0 == nil && typeis_[Unchoke](m) ==> consumed(w) == old(consumed(w)) + 5 && be32(w, old(consumed(w))) == 1 && streamAt(w, old(consumed(w)) + 4) == 1
+//@   ensures  [interested] $r0 == nil && typeis_[Interested](m) ==> consumed(w) == old(consumed(w)) + 5 && be32(w, old(consumed(w))) == 1 && streamAt(w, old(consumed(w)) + 4) == 2
+//@   ensures  [notinterested] $r0 == nil && typeis_[NotInterested](m) ==> consumed(w) == old(consumed(w)) + 5 && be32(w, old(consumed(w))) == 1 && streamAt(w, old(consumed(w)) + 4) == 3
+//@   ensures  [haveall]   $r0 == nil && typeis_[HaveAll](m) ==> consumed(w) == old(consumed(w)) + 5 && be32(w, old(consumed(w))) == 1 && streamAt(w, old(consumed(w)) + 4) == 14
+//@   ensures  [havenone]  $r0 == nil && typeis_[HaveNone](m) ==> consumed(w) == old(consumed(w)) + 5 && be32(w, old(consumed(w))) == 1 && streamAt(w, old(consumed(w)) + 4) == 15
+//@   ensures  [have]      $r0 == nil && typeis_[Have](m) ==> consumed(w) == old(consumed(w)) + 9 && be32(w, old(consumed(w))) == 5 && streamAt(w, old(consumed(w)) + 4) == 4 && be32(w, old(consumed(w)) + 5) == as_[Have](m).Index
+//@   ensures  [suggest]   $r0 == nil && typeis_[SuggestPiece](m) ==> consumed(w) == old(consumed(w)) + 9 && be32(w, old(consumed(w))) == 5 && streamAt(w, old(consumed(w)) + 4) == 13 && be32(w, old(consumed(w)) + 5) == as_[SuggestPiece](m).Index
+//@   ensures  [allowedfast] $r0 == nil && typeis_[AllowedFast](m) ==> consumed(w) == old(consumed(w)) + 9 && be32(w, old(consumed(w))) == 5 && streamAt(w, old(consumed(w)) + 4) == 17 && be32(w, old(consumed(w)) + 5) == as_[AllowedFast](m).Index
+//@   ensures  [request]   $r0 == nil && typeis_[Request](m) ==> consumed(w) == old(consumed(w)) + 17 && be32(w, old(consumed(w))) == 13 && streamAt(w, old(consumed(w)) + 4) == 6 && be32(w, old(consumed(w)) + 5) == as_[Request](m).Index && be32(w, old(consumed(w)) + 9) == as_[Request](m).Begin && be32(w, old(consumed(w)) + 13) == as_[Request](m).Length
+//@   ensures  [cancel]    $r0 == nil && typeis_[Cancel](m) ==> consumed(w) == old(consumed(w)) + 17 && be32(w, old(consumed(w))) == 13 && streamAt(w, old(consumed(w)) + 4) == 8 && be32(w, old(consumed(w)) + 5) == as_[Cancel](m).Index && be32(w, old(consumed(w)) + 9) == as_[Cancel](m).Begin && be32(w, old(consumed(w)) + 13) == as_[Cancel](m).Length
+//@   ensures  [reject]    $r0 == nil && typeis_[RejectRequest](m) ==> consumed(w) == old(consumed(w)) + 17 && be32(w, old(consumed(w))) == 13 && streamAt(w, old(consumed(w)) + 4) == 16 && be32(w, old(consumed(w)) + 5) == as_[RejectRequest](m).Index && be32(w, old(consumed(w)) + 9) == as_[RejectRequest](m).Begin && be32(w, old(consumed(w)) + 13) == as_[RejectRequest](m).Length
+//@   ensures  [port]      $r0 == nil && typeis_[Port](m) ==> consumed(w) == old(consumed(w)) + 7 && be32(w, old(consumed(w))) == 3 && streamAt(w, old(consumed(w)) + 4) == 9 && be16(w, old(consumed(w)) + 5) == as_[Port](m).Port
+//@   ensures  [bitfield]  $r0 == nil && typeis_[Bitfield](m) ==> consumed(w) == old(consumed(w)) + 5 + len(as_[Bitfield](m).Bitfield) && int(be32(w, old(consumed(w)))) == 1 + len(as_[Bitfield](m).Bitfield) && streamAt(w, old(consumed(w)) + 4) == 5
+//@   ensures  [bitfieldbytes] $r0 == nil && typeis_[Bitfield](m) ==> forall k int :: 0 <= k && k < len(as_[Bitfield](m).Bitfield) ==> streamAt(w, old(consumed(w)) + 5 + k) == as_[Bitfield](m).Bitfield[k]
+//@   ensures  [piece]     $r0 == nil && typeis_[Piece](m) ==> consumed(w) == old(consumed(w)) + 13 + len(as_[Piece](m).Data) && int(be32(w, old(consumed(w)))) == 9 + len(as_[Piece](m).Data) && streamAt(w, old(consumed(w)) + 4) == 7 && be32(w, old(consumed(w)) + 5) == as_[Piece](m).Index && be32(w, old(consumed(w)) + 9) == as_[Piece](m).Begin
+//@   ensures  [piecebytes] $r0 == nil && typeis_[Piece](m) ==> forall k int :: 0 <= k && k < len(as_[Piece](m).Data) ==> streamAt(w, old(consumed(w)) + 13 + k) == old(as_[Piece](m).Data[k])
+//@   ensures  [donthave]  $r0 == nil && typeis_[ExtendedDontHave](m) ==> consumed(w) == old(consumed(w)) + 10 && be32(w, old(consumed(w))) == 6 && streamAt(w, old(consumed(w)) + 4) == 20 && streamAt(w, old(consumed(w)) + 5) == as_[ExtendedDontHave](m).Subtype && be32(w, old(consumed(w)) + 6) == as_[ExtendedDontHave](m).Index
+//@   props    C06
+
+// ---- round trip (C06). lemmaRoundTrip is GHOST code: it exists only in the
+// verifier's in-memory overlay (never compiled into any build, not even with
+// the tag verif), its body calls the real Write and the real Read, and its
+// contract -- proved from the two contracts above, not from the bodies -- is
+// the round-trip lemma: if the reader's upcoming input is the writer's
+// upcoming output, decoding what was encoded yields the message that was
+// encoded, field by field, and consumes exactly the bytes emitted.
+//@ ghostimport "bufio"
+//@ ghostcode func lemmaWord0() {}
+//@ ghostcode func lemmaRoundTrip(w *bufio.Writer, r *bufio.Reader, m Message) (res Message, err error) {
+//@ ghostcode 	lemmaWord0()
+//@ ghostcode 	err = Write(w, m, nil)
+//@ ghostcode 	if err != nil {
+//@ ghostcode 		return nil, err
+//@ ghostcode 	}
+//@ ghostcode 	return Read(r, nil)
+//@ ghostcode }
+
+// the one arithmetic fact the round trip needs about big-endian words (they
+// are opaque in lemmaRoundTrip): four zero bytes are the word 0 (keep-alive).
+//@ func lemmaWord0
+//@   ensures  [zero] word32(0, 0, 0, 0) == 0
+//@   props    C06
+
+//@ func lemmaRoundTrip
+//@   requires w != nil && r != nil && ref_(w) != ref_(r)
+//@   requires typeis_[Piece](m) ==> len(as_[Piece](m).Data) < 1<<20 - 9
+//@   requires typeis_[Bitfield](m) ==> len(as_[Bitfield](m).Bitfield) < 1<<20 - 1
+//@   requires [same] forall k int :: k >= 0 ==> streamAt(r, consumed(r) + k) == streamAt(w, consumed(w) + k)
+//@   instconsts 20
+//@   opaquefn word32 word16
+//@   modifies *
+//@   ensures  [rt-len]       err == nil && (typeis_[KeepAlive](m) || typeis_[Choke](m) || typeis_[Unchoke](m) || typeis_[Interested](m) || typeis_[NotInterested](m) || typeis_[HaveAll](m) || typeis_[HaveNone](m) || typeis_[Have](m) || typeis_[SuggestPiece](m) || typeis_[AllowedFast](m) || typeis_[Request](m) || typeis_[Cancel](m) || typeis_[RejectRequest](m) || typeis_[Port](m) || typeis_[Bitfield](m) || typeis_[Piece](m)) ==> consumed(r) - old(consumed(r)) == consumed(w) - old(consumed(w))
+//@   ensures  [rt-keepalive] err == nil && typeis_[KeepAlive](m) ==> typeis_[KeepAlive](res)
+//@   ensures  [rt-choke]     err == nil && typeis_[Choke](m) ==> typeis_[Choke](res)
+//@   ensures  [rt-unchoke]   err == nil && typeis_[Unchoke](m) ==> typeis_[Unchoke](res)
+//@   ensures  [rt-interested] err == nil && typeis_[Interested](m) ==> typeis_[Interested](res)
+//@   ensures  [rt-notinterested] err == nil && typeis_[NotInterested](m) ==> typeis_[NotInterested](res)
+//@   ensures  [rt-haveall]   err == nil && typeis_[HaveAll](m) ==> typeis_[HaveAll](res)
+//@   ensures  [rt-havenone]  err == nil && typeis_[HaveNone](m) ==> typeis_[HaveNone](res)
+//@   ensures  [rt-have]      err == nil && typeis_[Have](m) ==> typeis_[Have](res) && as_[Have](res).Index == as_[Have](m).Index
+//@   ensures  [rt-suggest]   err == nil && typeis_[SuggestPiece](m) ==> typeis_[SuggestPiece](res) && as_[SuggestPiece](res).Index == as_[SuggestPiece](m).Index
+//@   ensures  [rt-allowedfast] err == nil && typeis_[AllowedFast](m) ==> typeis_[AllowedFast](res) && as_[AllowedFast](res).Index == as_[AllowedFast](m).Index
+//@   ensures  [rt-request]   err == nil && typeis_[Request](m) ==> typeis_[Request](res) && as_[Request](res).Index == as_[Request](m).Index && as_[Request](res).Begin == as_[Request](m).Begin && as_[Request](res).Length == as_[Request](m).Length
+//@   ensures  [rt-cancel]    err == nil && typeis_[Cancel](m) ==> typeis_[Cancel](res) && as_[Cancel](res).Index == as_[Cancel](m).Index && as_[Cancel](res).Begin == as_[Cancel](m).Begin && as_[Cancel](res).Length == as_[Cancel](m).Length
+//@   ensures  [rt-reject]    err == nil && typeis_[RejectRequest](m) ==> typeis_[RejectRequest](res) && as_[RejectRequest](res).Index == as_[RejectRequest](m).Index && as_[RejectRequest](res).Begin == as_[RejectRequest](m).Begin && as_[RejectRequest](res).Length == as_[RejectRequest](m).Length
+//@   ensures  [rt-port]      err == nil && typeis_[Port](m) ==> typeis_[Port](res) && as_[Port](res).Port == as_[Port](m).Port
+//@   ensures  [rt-bitfield]  err == nil && typeis_[Bitfield](m) ==> typeis_[Bitfield](res) && len(as_[Bitfield](res).Bitfield) == len(as_[Bitfield](m).Bitfield)
+//@   ensures  [rt-bitfieldbytes] err == nil && typeis_[Bitfield](m) ==> forall k int :: 0 <= k && k < len(as_[Bitfield](m).Bitfield) ==> as_[Bitfield](res).Bitfield[k] == as_[Bitfield](m).Bitfield[k]
+//@   ensures  [rt-piece]     err == nil && typeis_[Piece](m) ==> typeis_[Piece](res) && as_[Piece](res).Index == as_[Piece](m).Index && as_[Piece](res).Begin == as_[Piece](m).Begin && len(as_[Piece](res).Data) == len(as_[Piece](m).Data)
+//@   ensures  [rt-piecebytes] err == nil && typeis_[Piece](m) ==> forall k int :: 0 <= k && k < len(as_[Piece](m).Data) ==> as_[Piece](res).Data[k] == old(as_[Piece](m).Data[k])
+//@   props    C06
